@@ -117,10 +117,11 @@ package common
 // ---- paginator_offset.go ----------------------------------------------------------------------------
 
 //@ func (o OffsetPaginator[ResourceType, OptionsType]) Paginate(sb *bun.SelectQuery) (r *bun.SelectQuery, err error)
-//@   property C21
+//@   property C21 C38
 //@   requires o.query.Order != nil && sb != nil
 //@   modifies qLimit, qLimitCount, qOffset, qOffsetCount, qOrderExpr
 //@   ensures (err != nil) == (o.query.Offset > 2147483647)
+//@   ensures err != nil ==> isErr(err, ErrInvalidQuery)
 //@   ensures err == nil ==> r != nil && qOrderExpr == sprintf("%s %s", o.query.Column, deref(o.query.Order))
 //@   ensures err == nil && o.query.Offset > 0 ==> qOffset == o.query.Offset && qOffsetCount == old(qOffsetCount) + 1
 //@   ensures err == nil && o.query.Offset == 0 ==> qOffsetCount == old(qOffsetCount)
@@ -138,6 +139,7 @@ package common
 //@   ensures err == nil ==> (previous != nil) == (o.query.Offset > 0)
 //@   ensures err == nil && previous != nil ==> previous.Offset == max(0, o.query.Offset - o.query.PageSize) && previous.PageSize == o.query.PageSize
 //@   ensures err != nil ==> o.query.Offset + o.query.PageSize > 18446744073709551615
+//@   ensures err != nil ==> isErr(err, ErrInvalidQuery)
 
 // ---- cursor.go: decoding a client-supplied cursor never panics (C38) ---------------------------------------
 
